@@ -74,11 +74,12 @@ def one_writer(ctx, r):
         base.close()
 
 
-def one_reader(ctx, r):
+def one_reader(ctx, r, legacy=False):
     """the converse schedule: a *reader* is parked after each of its own calls on the log (open, every read, close), a writer runs to completion
     meanwhile, the reader goes on — it must succeed and show the state before or after that writer.  Half of the stores end in the torn
     fragment of a killed writer (which the reader skips and the writer repairs)."""
-    base, v, trace = crash.build_state(ctx, r, 5 + r.n(8))
+    base, v, trace = crash.build_state(ctx, r, 5 + r.n(8), legacy=legacy)
+    calls = strace.CALLS + "," + strace.STAT_CALLS       # the reader is also parked right after it has looked at the log's names
     try:
         torn = r.p(55)
         if torn:
@@ -91,6 +92,8 @@ def one_reader(ctx, r):
             return
         v.update(pre["graph"])
         label, wargv, wstdin = crash.multi_event_command(r, v) if r.p(60) else ("new-task", ["--json", "new", "task"], b'{"title":"w"}')
+        if legacy:
+            label, wargv, wstdin = r.pick([("compact", ["--json", "compact"], None), ("plan", ["--json", "plan"], b'{"title":"P","tasks":[{"title":"a"}]}')])
         wenv = {"VERIF_RAND": str(r.next() % (1 << 40))}
         done = crash.clone(base)
         try:
@@ -121,7 +124,7 @@ def one_reader(ctx, r):
                 t.close()
         solo = crash.clone(base)
         try:
-            rc, _, _, rsteps = strace.run(solo, rargv)
+            rc, _, _, rsteps = strace.run(solo, rargv, calls=calls)
         finally:
             solo.close()
         if rc != 0 and rargv[1] != "show":
@@ -131,7 +134,7 @@ def one_reader(ctx, r):
             c = crash.clone(base)
             pk = None
             try:
-                pk = sched.Parked(c, rargv, None, pts[k - 1])
+                pk = sched.Parked(c, rargv, None, pts[k - 1], calls=calls)
                 if not pk.parked:
                     pk.wait(5); pk = None
                     continue
@@ -180,8 +183,8 @@ def run(ctx):
     r = gen.Rng(ctx.seed * 1000003 + 13)
     for i in range(7 if ctx.quick else 120):
         one_writer(ctx, r.fork())
-    for i in range(6 if ctx.quick else 100):
-        one_reader(ctx, r.fork())
+    for i in range(7 if ctx.quick else 100):
+        one_reader(ctx, r.fork(), legacy=(i % 3 == 2))
     ctx.cov["rule"] = ("readers parked after each of their own calls on the log (open/read/close) while a writer runs to completion, on logs with and without a torn tail; "
                        "for generated pre-states × writer kinds (claim, set, create-with-state, sequence chain, prune --yes, plan, compact): the real writer is parked (strace SIGSTOP injection) "
                        "right after each of its system calls on the store (quick: after every open/flock/write/fsync/rename), `list --json --all/--epics` run meanwhile must succeed and show "
